@@ -1,12 +1,11 @@
 /-
   C08 — theorems about the mechanism model (compileCF + mini-VM).
 
-  `CompileCFCorrect` is the full compiler-correctness statement.  It is NOT proved here (no stage of
-  it, not even `_partial₁`): it is checked differentially on every generated program by the
-  driver's `V` op (obligation corr:vm-vs-ref).  What IS proved, for all block stacks / VM states:
-  the compile-time half of "exactly once, inner to outer" (exit-code emission) and the run-time
-  single-shot behaviour of leaveTry / restoreStacks / handleThrow, plus concrete witnesses that
-  today's code (quirks on) deviates from the reference semantics.
+  `CompileCFCorrect` is the full compiler-correctness statement; its stage-1 instance is proved in
+  GojaModel.C08.CompileSProps (compileCF_correct_partial₁, for the compositional presentation
+  `compileS`).  Here: for all block stacks / VM states, the compile-time half of "exactly once, inner
+  to outer" (exit-code emission) and the run-time single-shot behaviour of leaveTry / enterFinally /
+  restoreStacks / handleThrow, plus regression lemmas about the mechanism before the repairs.
 -/
 import GojaModel.C08.Compile
 
@@ -16,7 +15,7 @@ namespace GojaModel.C08
 `WF` = the syntactic side conditions under which goja accepts the program (every break/continue
 has a target; ids unique).  Left unproved; see the header. -/
 def CompileCFCorrect (WF : Stmt → Prop) : Prop :=
-  ∀ p : Stmt, WF p → ∃ fuel, (runProgramWith {} fuel p).1 = ((match (refSem p).1 with
+  ∀ p : Stmt, WF p → ∃ fuel, (runProgramWith fuel p).1 = ((match (refSem p).1 with
       | .normal _ => Compl.normal none
       | c => c), (refSem p).2)
 
@@ -83,14 +82,14 @@ theorem exitWalk_length (t : Nat) (blocks : List Block) (code : Array Instr) :
 and disarms the frame (finallyPos = none, catchPos = none, finallyRet = pc+1); on a frame whose
 finally block is running or absent it just pops the frame.  Hence two leaveTry in a row can never
 run the same finally block twice. -/
-theorem leaveTry_single_shot (q : Quirks) (vm : VM) (tf : TryFrame) (rest : List TryFrame)
+theorem leaveTry_single_shot (vm : VM) (tf : TryFrame) (rest : List TryFrame)
     (h : vm.tries = tf :: rest) :
     (∀ p, tf.finallyPos = some p →
-        (VM.step q vm .leaveTry).pc = p ∧
-        (VM.step q vm .leaveTry).tries =
+        (VM.step vm .leaveTry).pc = p ∧
+        (VM.step vm .leaveTry).tries =
           { tf with finallyRet := some (vm.pc + 1), finallyPos := none, catchPos := none } :: rest) ∧
     (tf.finallyPos = none →
-        (VM.step q vm .leaveTry).tries = rest ∧ (VM.step q vm .leaveTry).pc = vm.pc + 1) := by
+        (VM.step vm .leaveTry).tries = rest ∧ (VM.step vm .leaveTry).pc = vm.pc + 1) := by
   constructor
   · intro p hp
     simp [VM.step, h, hp, VM.setSp]
@@ -147,12 +146,12 @@ theorem closeIters_go_nocall (len : Nat) (its : List IterItem) (acc : List Ev) :
     · simp only [h, if_false]
       cases hs : it.sp <;> simp [ih]
 
-/-- uncatchable_unwinds_silently (intended mechanism, quirks off): handleThrow with an uncatchable
+/-- uncatchable_unwinds_silently: handleThrow with an uncatchable
 payload appends NOTHING to the log — no catch, no finally, no return() — for every try stack and
 every VM state, and halts the run with the fatal completion. -/
 theorem uncatchable_unwinds_silently (tries : List TryFrame) (vm : VM) :
-    (VM.handleThrow {} none tries vm).log = vm.log ∧
-    (VM.handleThrow {} none tries vm).halted = some Compl.fatal := by
+    (VM.handleThrow none tries vm).log = vm.log ∧
+    (VM.handleThrow none tries vm).halted = some Compl.fatal := by
   induction tries generalizing vm with
   | nil =>
     simp only [VM.handleThrow, VM.closeIters]
@@ -163,36 +162,41 @@ theorem uncatchable_unwinds_silently (tries : List TryFrame) (vm : VM) :
     simp only [VM.handleThrow]
     simp [ih]
 
-/-! ### witnesses: today's code (quirks on) deviates from the reference semantics.
-These are proofs of a NEGATION on a concrete program, as required for statements the current
-code violates (defects reported in design/C08.md, patches under /verif/fixes/). -/
+/-- enterFinally_disarms_frame: after enterFinally neither the catch clause nor the finally block of
+the statement can be entered again by an exception or a leaveTry (vm.go enterFinally, as repaired
+by 379f30d). -/
+theorem enterFinally_disarms_frame (vm : VM) (tf : TryFrame) (rest : List TryFrame)
+    (h : vm.tries = tf :: rest) :
+    (VM.step vm .enterFinally).tries = { tf with finallyPos := none, catchPos := none } :: rest := by
+  simp [VM.step, h, VM.next]
 
-/-- `try { log 1 } catch { log 2 } finally { throw 8 }` -/
+/-! ### regression lemmas about the mechanism BEFORE the repairs (kept as named witnesses) -/
+
+/-- keepCatch_prefix_witness: had enterFinally reset only `finallyPos` (the code before 379f30d), a
+frame whose try block completed normally would still deliver an exception thrown inside its
+finally block to its own catch clause at `p`. -/
+theorem keepCatch_prefix_witness (p : Nat) (v : Val) :
+    let tf : TryFrame := { iterLen := 0, sp := 0, catchPos := some p, finallyPos := some 9 }
+    let old : TryFrame := { tf with finallyPos := none }          -- pre-fix enterFinally
+    (VM.handleThrow (some v) [old] {}).pc = p ∧ (VM.handleThrow (some v) [old] {}).halted = none := by
+  simp [VM.handleThrow, VM.closeIters, VM.closeIters.go, VM.setSp, VM.pushV]
+
+/-- closeOnFatal_prefix_witness: closing the iterator stack WITH calls (what the marker frame did
+for uncatchable payloads before 5d979ec) logs a return() event for an open iterator, whereas
+handleThrow now logs nothing (uncatchable_unwinds_silently). -/
+theorem closeOnFatal_prefix_witness (sp : IterSpec) :
+    (VM.closeIters 0 true { iters := [{ sp := some sp }] }).log = [Ev.itRet sp.id] ∧
+    (VM.handleThrow none [] { iters := [{ sp := some sp }] }).log = [] := by
+  simp [VM.closeIters, VM.closeIters.go, VM.handleThrow]
+
+/-- `try { log 1 } catch { log 2 } finally { throw 8 }` and `for (x of it) { <stack overflow> }`:
+the mini-VM agrees with the reference semantics on the original failing inputs (test on literals) -/
 def witnessQ1 : Stmt := .tryS 1 (.log 1) true (.log 2) true (.thr 8)
-
-/-- `for (x of it) { <stack overflow> }` -/
 def witnessQ2 : Stmt := .forOf ⟨1, 2, none, .ok⟩ .fatal
 
-/-- with enterFinally keeping catchPos armed (vm.go:4794 today) the finally's throw is caught by
-the statement's own catch clause and the finally block runs twice -/
-theorem vm_keepCatch_witness :
-    (runProgramWith { keepCatch := true } 100 witnessQ1).1.2 =
-      [.tryE 1, .log 1, .finE 1, .caught 1 8, .log 2, .finE 1] ∧
-    (refSem witnessQ1).2 = [.tryE 1, .log 1, .finE 1] := by
-  decide
-
-/-- with the marker frame closing iterators for uncatchable payloads (vm.go:818 today) return() is
-called after the fatal event -/
-theorem vm_closeOnFatal_witness :
-    (runProgramWith { cof := true } 100 witnessQ2).1.2 = [.itOpen 1, .itNext 1, .fatal, .itRet 1] ∧
-    (refSem witnessQ2).2 = [.itOpen 1, .itNext 1, .fatal] := by
-  decide
-
-/-- and with the quirks off the mini-VM agrees with the reference semantics on both witnesses
-(test on literals) -/
-theorem vm_intended_on_witnesses :
-    (runProgramWith {} 100 witnessQ1).1 = (.thr 8, (refSem witnessQ1).2) ∧
-    (runProgramWith {} 100 witnessQ2).1 = (.fatal, (refSem witnessQ2).2) := by
+theorem vm_on_repaired_inputs :
+    (runProgramWith 100 witnessQ1).1 = (.thr 8, (refSem witnessQ1).2) ∧
+    (runProgramWith 100 witnessQ2).1 = (.fatal, (refSem witnessQ2).2) := by
   decide
 
 end GojaModel.C08
